@@ -44,6 +44,14 @@ CLAIMS["C09"] = {
     "design_ref": "DESIGN.md §5 C09",
 }
 
+CLAIMS["C10"] = {
+    "technique": "static analysis: sibling agreement of list-unlink sites (delta hand-over), dominance and avoid-set reachability in call_out() (dequeue-before-invoke, per-entry setjmp, release on both branches, clock after drain, destructed-target test)",
+    "text": "Decides the bookkeeping mechanism of call_out for all paths: every unlink site of the delta-encoded slot lists hands the removed delta to its successor, insertion is symmetric, "
+            "the entry leaves the list before its callback can run, each entry has its own recovery point and is released on both setjmp branches, and destructed targets/arguments are filtered. "
+            "The timing arithmetic over event histories (fires exactly once, not early, not late) is not decided.",
+    "design_ref": "DESIGN.md §5 C10",
+}
+
 NOT_APPLICABLE = {
     "C18": "Line/trace correctness is a value-level question about run-length tables (encode in the code generator, decode in find_line); no clause of it is visible in the shape of the code, so static analysis gives no verdict (DESIGN.md §6).",
 }
